@@ -305,27 +305,29 @@ func perturb(v reflect.Value, depth int) bool {
 		}
 		return false
 	case reflect.Pointer: // overwrite the pointer field itself (like `obj.Field = newValue`): the value stays well-formed
+		if v.IsNil() {
+			return false // nil stays nil: an optional part is not invented
+		}
 		nv := reflect.New(v.Type().Elem())
-		if !v.IsNil() {
-			nv.Elem().Set(v.Elem())
-			if !perturb(nv.Elem(), depth+1) {
-				return false
-			}
+		nv.Elem().Set(v.Elem())
+		if !perturb(nv.Elem(), depth+1) {
+			return false
 		}
 		v.Set(nv)
 	case reflect.Slice:
-		if v.Len() > 0 {
-			return perturb(v.Index(0), depth+1)
+		if v.Len() == 0 {
+			return false
 		}
-		v.Set(reflect.MakeSlice(v.Type(), 1, 1))
+		return perturb(v.Index(0), depth+1)
 	case reflect.Map: // replace the map by a copy with one more entry
-		nm := reflect.MakeMap(v.Type())
-		if !v.IsNil() {
-			for _, k := range v.MapKeys() {
-				nm.SetMapIndex(k, v.MapIndex(k))
-			}
+		if v.Len() == 0 {
+			return false
 		}
-		nm.SetMapIndex(reflect.Zero(v.Type().Key()), reflect.Zero(v.Type().Elem()))
+		nm := reflect.MakeMap(v.Type())
+		for _, k := range v.MapKeys() {
+			nm.SetMapIndex(k, v.MapIndex(k))
+			nm.SetMapIndex(reflect.Zero(v.Type().Key()), v.MapIndex(k)) // one existing entry once more, under the zero key
+		}
 		v.Set(nm)
 	default:
 		return false
@@ -334,9 +336,9 @@ func perturb(v reflect.Value, depth int) bool {
 }
 
 // mutate overwrites what is behind the k-th writable reference of val (k taken modulo their number) and returns the
-// path it wrote through ("" when the value has no writable reference).  mode "deep" writes a leaf, mode "field" sets
-// the first pointer/slice/map-typed field of a pointee to its zero value where there is one (like a handler that
-// assigns a field of the object it was given).
+// path it wrote through ("" when the value has no writable reference).  Writes keep the value well-formed: a leaf is
+// changed, a pointer field is pointed at a changed copy (like a handler that assigns a field of the object it was
+// given), a map entry is deleted or duplicated; nil parts stay nil.
 func mutate(val any, k int) string {
 	rs := inspect(val).writable()
 	if len(rs) == 0 {
@@ -356,11 +358,14 @@ func mutate(val any, k int) string {
 		case "map":
 			keys := r.v.MapKeys()
 			if len(keys) == 0 {
-				r.v.SetMapIndex(reflect.Zero(r.v.Type().Key()), reflect.Zero(r.v.Type().Elem()))
-				return r.path
+				continue
 			}
 			sort.Slice(keys, func(i, j int) bool { return fmt.Sprint(keys[i]) < fmt.Sprint(keys[j]) })
-			r.v.SetMapIndex(keys[0], reflect.Value{}) // delete
+			if zk := reflect.Zero(r.v.Type().Key()); (k/len(rs))%2 == 1 && !r.v.MapIndex(zk).IsValid() {
+				r.v.SetMapIndex(zk, r.v.MapIndex(keys[0])) // insert: an existing entry once more, under the zero key
+			} else {
+				r.v.SetMapIndex(keys[0], reflect.Value{}) // delete
+			}
 			return r.path
 		}
 	}
